@@ -130,3 +130,37 @@ def lp_wrap(fragment, nack_reason=None, nack=False, pit_token=None, extra=(), fr
 
 def outer_type(wire) -> int:
     return T.read_num(wire, 0, len(wire))[0]
+
+
+class debug_logging:
+    """Run a block with the library's loggers at DEBUG and a handler that formats every record (into a sink):
+    what the application observes must not depend on the logging level."""
+
+    def __init__(self, enabled=True):
+        self.enabled = enabled
+        self.records = 0
+
+    def __enter__(self):
+        import logging
+        if not self.enabled:
+            return self
+        outer = self
+
+        class _Sink(logging.Handler):
+            def emit(self, record):
+                outer.records += 1
+                record.getMessage()
+        self.lg = logging.getLogger('ndn')
+        self.h = _Sink()
+        self.old = (self.lg.level, self.lg.propagate)
+        self.lg.addHandler(self.h)
+        self.lg.setLevel(logging.DEBUG)
+        self.lg.propagate = False
+        return self
+
+    def __exit__(self, *a):
+        if self.enabled:
+            self.lg.removeHandler(self.h)
+            self.lg.setLevel(self.old[0])
+            self.lg.propagate = self.old[1]
+        return False
